@@ -2,6 +2,7 @@ package main
 
 import (
 	"fmt"
+	"regexp"
 	"sort"
 	"strings"
 
@@ -12,19 +13,54 @@ import (
 // ---- projection of a *sysl.Module and of the observed *relmod.Schema to the terms of Verif.Relmod.Model ----
 // Every string of one case is interned to a positive; ids 1-6 are the constants the Go code compares against.
 
+// Interning is ORDER-PRESERVING (ids compare as the strings do under sort.Strings), because the code walks its maps in
+// sorted key order and the model sorts by id. The six constants have fixed ids k<<20; a string with j constants below
+// it gets j<<20 + its rank among those. Two passes: collect the strings of the case, freeze, print.
 type interner struct {
-	ids map[string]int
+	seen   map[string]bool
+	ids    map[string]int
+	frozen bool
+	retOK  bool // every return payload of the module was readable by readPayload
 }
 
+var constNames = []string{"", "...", "any", "method", "path", "query"}
+
 func newInterner() *interner {
-	return &interner{ids: map[string]int{"method": 1, "path": 2, "query": 3, "any": 4, "...": 5, "": 6}}
+	return &interner{seen: map[string]bool{}, retOK: true}
+}
+func (in *interner) freeze() {
+	in.ids = map[string]int{}
+	for i, c := range constNames {
+		in.ids[c] = (i + 1) << 20
+		delete(in.seen, c)
+	}
+	var all []string
+	for s := range in.seen {
+		all = append(all, s)
+	}
+	sort.Strings(all)
+	rank := map[int]int{}
+	for _, s := range all {
+		j := 0
+		for _, c := range constNames {
+			if c < s {
+				j++
+			}
+		}
+		rank[j]++
+		in.ids[s] = j<<20 + rank[j]
+	}
+	in.frozen = true
 }
 func (in *interner) id(s string) int {
-	if v, ok := in.ids[s]; ok {
-		return v
+	if !in.frozen {
+		in.seen[s] = true
+		return 1
 	}
-	v := len(in.ids) + 1
-	in.ids[s] = v
+	v, ok := in.ids[s]
+	if !ok {
+		panic("string not collected in the first pass: " + s)
+	}
 	return v
 }
 func (in *interner) name(s string) string { return fmt.Sprintf("%d%%positive", in.id(s)) }
@@ -103,7 +139,7 @@ func (in *interner) attrs(a map[string]*sysl.Attribute) string {
 			annos = append(annos, n)
 		}
 	}
-	sort.Strings(annos)
+	sort.Sort(sort.Reverse(sort.StringSlice(annos)))
 	return fmt.Sprintf("(At %s %s)", in.names(tags), in.names(annos))
 }
 
@@ -186,13 +222,18 @@ func (in *interner) stmt(s *sysl.Statement, payBad func(string) bool) string {
 	case *sysl.Statement_Group:
 		return blk("BGroup", x.Group.GetTitle(), x.Group.GetStmt())
 	case *sysl.Statement_Ret:
-		p := "PayGood"
+		p := ""
 		if x.Ret.GetPayload() == "" {
 			p = "PayEmpty"
 		} else if payBad(x.Ret.Payload) {
 			p = "PayBad"
+		} else if st, rt, ok := readPayload(x.Ret.Payload); ok {
+			p = fmt.Sprintf("(PayGood %s %s)", in.name(st), in.rtype(rt))
+		} else {
+			in.retOK = false
+			p = "(PayGood " + in.name("") + " None)"
 		}
-		return fmt.Sprintf("(SL (LRet %s) 6%%positive %s)", p, at)
+		return fmt.Sprintf("(SL (LRet %s) %s %s)", p, in.name(""), at)
 	case *sysl.Statement_Alt:
 		var chs []string
 		for _, ch := range x.Alt.GetChoice() {
@@ -200,7 +241,7 @@ func (in *interner) stmt(s *sysl.Statement, payBad func(string) bool) string {
 		}
 		return fmt.Sprintf("(SA %s %s)", at, glist(chs))
 	}
-	return fmt.Sprintf("(SL LNone 6%%positive %s)", at)
+	return fmt.Sprintf("(SL LNone %s %s)", in.name(""), at)
 }
 
 func (in *interner) stmts(ss []*sysl.Statement, payBad func(string) bool) string {
@@ -220,9 +261,18 @@ func sortedKeys[V any](m map[string]V) []string {
 	return ks
 }
 
+// revKeys: descending order - the model has to do the sorting the code does
+func revKeys[V any](m map[string]V) []string {
+	ks := sortedKeys(m)
+	for i, j := 0, len(ks)-1; i < j; i, j = i+1, j-1 {
+		ks[i], ks[j] = ks[j], ks[i]
+	}
+	return ks
+}
+
 func (in *interner) fields(defs map[string]*sysl.Type) string {
 	var it []string
-	for _, fn := range sortedKeys(defs) {
+	for _, fn := range revKeys(defs) {
 		f := defs[fn]
 		if f == nil {
 			bail("nil field")
@@ -263,7 +313,7 @@ func (in *interner) module(m *sysl.Module, payBad func(string) bool) string {
 			}
 			mix = append(mix, fmt.Sprintf("(%s, %s)", in.names(mx.Name.Part), in.attrs(mx.Attrs)))
 		}
-		for _, en := range sortedKeys(app.Endpoints) {
+		for _, en := range revKeys(app.Endpoints) {
 			ep := app.Endpoints[en]
 			if ep == nil {
 				bail("nil endpoint")
@@ -275,6 +325,14 @@ func (in *interner) module(m *sysl.Module, payBad func(string) bool) string {
 			for _, p := range ep.Param {
 				ps = append(ps, in.param(p.GetName(), p.GetType()))
 			}
+			src := "None"
+			if ep.Source != nil {
+				ev := ""
+				if i := strings.Index(ep.Name, " -> "); i >= 0 {
+					ev = ep.Name[i+4:]
+				}
+				src = fmt.Sprintf("(Some (%s, %s))", in.names(ep.Source.Part), in.name(ev))
+			}
 			rest := "None"
 			if ep.RestParams != nil {
 				var up, qp []string
@@ -284,12 +342,12 @@ func (in *interner) module(m *sysl.Module, payBad func(string) bool) string {
 				for _, p := range ep.RestParams.QueryParam {
 					qp = append(qp, in.param(p.GetName(), p.GetType()))
 				}
-				rest = fmt.Sprintf("(Some (%s, %s))", glist(up), glist(qp))
+				rest = fmt.Sprintf("(Some (%s, %s, %s, %s))", in.name(ep.RestParams.Method.String()), in.name(ep.RestParams.Path), glist(up), glist(qp))
 			}
-			eps = append(eps, fmt.Sprintf("(Ep %s %s %s %s %s %s %s)", in.name(ep.Name), gb(ep.IsPubsub), gb(ep.Source != nil), rest,
+			eps = append(eps, fmt.Sprintf("(Ep %s %s %s %s %s %s %s %s %s)", in.name(ep.Name), in.name(ep.LongName), in.name(ep.Docstring), gb(ep.IsPubsub), src, rest,
 				glist(ps), in.attrs(ep.Attrs), in.stmts(ep.Stmt, payBad)))
 		}
-		for _, tn := range sortedKeys(app.Types) {
+		for _, tn := range revKeys(app.Types) {
 			t := app.Types[tn]
 			if t == nil {
 				bail("nil type")
@@ -310,16 +368,16 @@ func (in *interner) module(m *sysl.Module, payBad func(string) bool) string {
 				}
 				def = "(DEnum " + glist(it) + ")"
 			}
-			tys = append(tys, fmt.Sprintf("(Td %s %s %s %s)", in.name(tn), gb(t.Opt), def, in.attrs(t.Attrs)))
+			tys = append(tys, fmt.Sprintf("(Td %s %s %s %s %s)", in.name(tn), in.name(t.Docstring), gb(t.Opt), def, in.attrs(t.Attrs)))
 		}
-		for _, vn := range sortedKeys(app.Views) {
+		for _, vn := range revKeys(app.Views) {
 			v := app.Views[vn]
 			if v == nil || v.RetType == nil {
 				bail("view without a return type")
 			}
 			vws = append(vws, fmt.Sprintf("(Vi %s %s %s)", in.name(vn), in.mtype(v.RetType), in.attrs(v.Attrs)))
 		}
-		apps = append(apps, fmt.Sprintf("(Ap %s %s %s\n  %s\n  %s\n  %s)", in.names(app.Name.Part), in.attrs(app.Attrs), glist(mix), glist(eps), glist(tys), glist(vws)))
+		apps = append(apps, fmt.Sprintf("(Ap %s %s %s %s %s\n  %s\n  %s\n  %s)", in.names(app.Name.Part), in.name(app.LongName), in.name(app.Docstring), in.attrs(app.Attrs), glist(mix), glist(eps), glist(tys), glist(vws)))
 	}
 	return glist(apps)
 }
@@ -396,7 +454,7 @@ func (in *interner) rows(s *relmod.Schema) string {
 	}
 	cat := func(a []string, b ...string) []string { return append(append([]string{}, a...), b...) }
 	for _, r := range s.App {
-		add("RApp", r.AppName, "[]", nil, nil, "TyNil")
+		add("RApp", r.AppName, in.names([]string{r.AppLongName, r.AppDocstring}), nil, nil, "TyNil")
 	}
 	for _, r := range s.Mixin {
 		add("RMixin", r.AppName, in.names(r.MixinName), nil, nil, "TyNil")
@@ -404,7 +462,9 @@ func (in *interner) rows(s *relmod.Schema) string {
 	for _, r := range s.Ep {
 		hasRest := r.Rest.Method != "" || r.Rest.Path != ""
 		hasSrc := r.EpEvent.AppName.Part != nil || r.EpEvent.EventName != ""
-		add("REp", r.AppName, in.names([]string{r.EpName}), nil, []int64{b2z(hasRest), b2z(hasSrc)}, "TyNil")
+		out = append(out, fmt.Sprintf("R2 REp %s %s %s %s", in.names(r.AppName),
+			in.names([]string{r.EpName, r.EpLongName, r.EpDocstring, r.Rest.Method, r.Rest.Path, r.EpEvent.EventName}),
+			gzs([]int64{b2z(hasRest), b2z(hasSrc)}), in.names(r.EpEvent.AppName.Part)))
 	}
 	for _, r := range s.Event {
 		add("REvent", r.AppName, in.names([]string{r.EventName}), nil, nil, "TyNil")
@@ -414,10 +474,15 @@ func (in *interner) rows(s *relmod.Schema) string {
 	}
 	for _, r := range s.Stmt {
 		code, text := in.stmtCodeText(r)
-		add("RStmt", r.AppName, in.names([]string{r.EpName, text}), r.StmtIndex, []int64{code}, "TyNil")
+		ty := "TyNil"
+		if code == 8 {
+			text = r.StmtRet.Status
+			ty = in.oty(r.StmtRet.Type)
+		}
+		add("RStmt", r.AppName, in.names([]string{r.EpName, text}), r.StmtIndex, []int64{code}, ty)
 	}
 	for _, r := range s.Type {
-		add("RType", r.AppName, in.names([]string{r.TypeName}), nil, []int64{b2z(r.TypeOpt)}, "TyNil")
+		add("RType", r.AppName, in.names([]string{r.TypeName, r.TypeDocstring}), nil, []int64{b2z(r.TypeOpt)}, "TyNil")
 	}
 	for _, r := range s.Table {
 		add("RTable", r.AppName, in.names(cat([]string{r.TypeName}, r.Pk...)), nil, nil, "TyNil")
@@ -516,10 +581,105 @@ func project(cr *caseResult) (term string, ok bool) {
 		return "", false
 	}
 	in := newInterner()
-	mod := in.module(cr.m, cr.payBad)
-	obs := "None"
-	if cr.o1.kind == "ok" {
-		obs = "(Some " + in.rows(cr.o1.s) + ")"
+	var mod, obs string
+	for pass := 0; pass < 2; pass++ {
+		mod = in.module(cr.m, cr.payBad)
+		obs = "None"
+		if cr.o1.kind == "ok" {
+			obs = "(Some " + in.rows(cr.o1.s) + ")"
+		}
+		if pass == 0 {
+			in.freeze()
+		}
 	}
-	return fmt.Sprintf("(%s,\n %s)", mod, obs), true
+	return fmt.Sprintf("(%s,\n %s, %s)", mod, obs, gb(in.retOK)), true
+}
+
+// ---- the harness's own reading of a return payload (independent of the arr.ai grammar in relmod.go): status and type
+// expression. ok=false when the text is outside the forms read here; such a case compares return rows without contents.
+type rty struct {
+	kind string // prim | ref | set | seq
+	name string
+	app  []string
+	elem *rty
+}
+
+var (
+	reStatusOnly = regexp.MustCompile(`^(ok|error|[1-5][0-9][0-9])$`)
+	reStatusType = regexp.MustCompile(`^(ok|error|[1-5][0-9][0-9]) <: (.+)$`)
+	reRef        = regexp.MustCompile(`^(?:([A-Za-z_][A-Za-z0-9_]*(?: ?:: ?[A-Za-z_][A-Za-z0-9_]*)*)\.)?([A-Za-z_][A-Za-z0-9_]*)$`)
+	payPrims     = []string{"int32", "int64", "int", "float32", "float64", "float", "decimal", "bool", "bytes", "string", "datetime", "date", "any"}
+)
+
+func readType(t string) (*rty, bool) {
+	if strings.HasPrefix(t, "sequence of ") {
+		e, ok := readType(strings.TrimPrefix(t, "sequence of "))
+		return &rty{kind: "seq", elem: e}, ok
+	}
+	if strings.HasPrefix(t, "set of ") {
+		e, ok := readType(strings.TrimPrefix(t, "set of "))
+		return &rty{kind: "set", elem: e}, ok
+	}
+	for _, p := range payPrims {
+		if t == p {
+			return &rty{kind: "prim", name: p}, true
+		}
+	}
+	for _, p := range payPrims {
+		if strings.HasPrefix(t, p) { // the grammar tries PRIMITIVE first and does not come back
+			return nil, false
+		}
+	}
+	m := reRef.FindStringSubmatch(t)
+	if m == nil {
+		return nil, false
+	}
+	r := &rty{kind: "ref", name: m[2]}
+	if m[1] != "" {
+		for _, part := range strings.Split(m[1], "::") {
+			r.app = append(r.app, strings.TrimSpace(part))
+		}
+	}
+	return r, true
+}
+
+func readPayload(p string) (status string, t *rty, ok bool) {
+	s := p
+	if i := strings.Index(s, "["); i >= 0 {
+		if !strings.HasSuffix(strings.TrimSpace(s), "]") {
+			return "", nil, false
+		}
+		s = s[:i]
+	}
+	s = strings.TrimSpace(s)
+	if strings.ContainsAny(s, "#\"'\t\n") || strings.Contains(s, "  ") {
+		return "", nil, false
+	}
+	if reStatusOnly.MatchString(s) {
+		return s, nil, true
+	}
+	if m := reStatusType.FindStringSubmatch(s); m != nil {
+		t, ok := readType(m[2])
+		return m[1], t, ok
+	}
+	t, ok = readType(s)
+	return "ok", t, ok
+}
+
+func (in *interner) rtype(t *rty) string {
+	if t == nil {
+		return "None"
+	}
+	return "(Some " + in.rtypeTerm(t) + ")"
+}
+func (in *interner) rtypeTerm(t *rty) string {
+	switch t.kind {
+	case "prim":
+		return "(RPrim " + in.name(t.name) + ")"
+	case "ref":
+		return fmt.Sprintf("(RRef %s %s)", in.names(t.app), in.names([]string{t.name}))
+	case "set":
+		return "(RSet " + in.rtypeTerm(t.elem) + ")"
+	}
+	return "(RSeq " + in.rtypeTerm(t.elem) + ")"
 }
